@@ -36,10 +36,37 @@ def run_oracle(chk, rng, ncases, task, name, grounds, families=None):
                 chk.violation(sig, b, x['spec'])
     chk.stages[name] = dict(cases=n, skipped_outside_domain=sk)
 
+def zmat_probes(rng):
+    """structures on which the copy / translation shortcuts of the matrix fill are at their limits: a tapered wire standing on the
+    ground plane with a run of equal long segments (short equal halves at the ground pulse, long equal halves in the run);
+    collinear wires of equal segment length and different radii joined end to end (a junction pulse with two equal, parallel
+    halves on different objects), thick and thin; both over ideal ground and in free space"""
+    out = []
+    def case(wires, media, fam, f=30.0):
+        out.append(dict(id=10 ** 6 + len(out), seed=rng.randrange(10 ** 9),
+                        spec=dict(f=f, wires=wires, media=media, family=fam, tagmode='none', sources=[], loads=[])))
+    lam = 299.8 / 30.0
+    for media in ([], None):
+        z0 = 0.0 if media is not None else 1.3
+        case([gen.wire(12, [0.0, 0.0, z0], [0.0, 0.0, z0 + 0.24 * lam], 0.004, taper=[1, None, 0.03 * lam])], media, 'probe-taper-grounded')
+        case([gen.wire(10, [0.3, 0.2, z0 + 0.2 * lam], [0.3, 0.2, z0], 0.004, taper=[2, None, 0.03 * lam])], media, 'probe-taper-grounded-topdown')
+        for r1, r2 in ((0.025, 0.010), (0.0004, 0.0011)):
+            s_ = 0.0625
+            case([gen.wire(4, [0.0, 0.0, z0 + 0.5], [0.0, 4 * s_, z0 + 0.5], r1), gen.wire(5, [0.0, 4 * s_, z0 + 0.5], [0.0, 9 * s_, z0 + 0.5], r2),
+                  gen.wire(4, [0.0, 9 * s_, z0 + 0.5], [0.0, 13 * s_, z0 + 0.5], r1)], media, 'probe-stepped-diameter', f=110.0)
+    return out
+
 def zmat_cases(chk, rng, n, grounds, families=None):
     cases = None
     if families:
-        cases = [dict(id=i, seed=rng.randrange(10 ** 9), spec=gen.gen_antenna(rng, ground=rng.choice(grounds), family=rng.choice(families))) for i in range(n)]
+        cases = [c for c in zmat_probes(rng) if (c['spec']['media'] is not None) == ('ideal' in grounds) or None in grounds]
+        cases += [dict(id=i, seed=rng.randrange(10 ** 9), spec=gen.gen_antenna(rng, ground=rng.choice(grounds), family=rng.choice(families))) for i in range(n)]
+    else:
+        cases = zmat_probes(rng)
+        for i in range(n):
+            g = rng.choice(grounds)
+            sp = gen.gen_topology(rng, ground=g, perturb=False) if rng.random() < 0.35 else gen.gen_antenna(rng, ground=g)
+            cases.append(dict(id=i, seed=rng.randrange(10 ** 9), spec=sp))
     good, errs = stage_topo.run_zmat(chk, rng, n, grounds=grounds, cases=cases)
     for r in good:
         chk.add_case('z:' + json.dumps(r['spec'], sort_keys=True), len(r['obs']['pulses']) > 2,
